@@ -61,7 +61,8 @@ Qed.
 Definition frame_t (t : tid) (a b : st) : Prop :=
   tk_core (tasks b t) = tk_core (tasks a t) /\
   (forall y, s_active (scopes a y) = true -> s_parent (scopes b y) = s_parent (scopes a y)) /\
-  (forall y, y < nscope a -> s_cancelled (scopes a y) = true -> s_cancelled (scopes b y) = true).
+  (forall y, y < nscope a -> s_cancelled (scopes a y) = true -> s_cancelled (scopes b y) = true) /\
+  (forall f, k_waiter (tasks a t) = Some f -> f_st (futs a f) <> FPend -> f_st (futs b f) = f_st (futs a f)).
 
 Lemma frame_t_refl t a : frame_t t a a.
 Proof. repeat split; auto. Qed.
@@ -77,6 +78,7 @@ Proof.
     destruct (in_dec Nat.eq_dec y XE) as [Hin|Hn]; [|now apply (aw_par _ _ _ _ _ W)].
     destruct (HX y Hin) as [E|E]; [congruence|exact E].
   - intros y Hy Hc. now apply (aw_mono _ _ _ _ _ W).
+  - intros f Hf Hd. destruct (aw_t _ _ _ _ _ W K) as [B _]. apply (by_done _ _ _ _ (B f Hf) Hd).
 Qed.
 
 Theorem frame_step t a o :
@@ -106,6 +108,7 @@ Proof.
         -- apply (kf_tasks _ _ Kf t).
         -- intros y _. now rewrite (core_parent _ _ (kf_scopes _ _ Kf y)).
         -- intros y _ Hc. now rewrite (core_cancelled _ _ (kf_scopes _ _ Kf y)).
+        -- intros f _ Hd. apply (kf_fdone _ _ Kf f Hd).
       * apply (frame_of_aw t _ _ a _ T K (aw_step_act t a (ANativeCancel t0) Hne At)). intros y [].
     + (* AExtCancel *)
       apply (frame_of_aw t _ _ a _ T K (aw_step_act t a (AExtCancel c) ltac:(cbn; discriminate) At)). intros y [].
@@ -225,7 +228,7 @@ Qed.
 
 Lemma placed_step s0 a b t org x n : Tree a -> Placed s0 a t org x n -> frame_t t a b -> Placed s0 b t org x n.
 Proof.
-  intros T (C0 & C1 & U & Cc & Op & Pa & Ca) (Fk & Fp & Fc).
+  intros T (C0 & C1 & U & Cc & Op & Pa & Ca) (Fk & Fp & Fc & _).
   assert (Same_up : forall j, j <= n -> up a x j = up s0 x j).
   { intros j Hj. apply up_same. intros i y Hi Hy. apply (Pa i y); [lia|exact Hy]. }
   assert (Act : forall j y, j <= n -> up s0 x j = Some y -> s_active (scopes a y) = true).
@@ -439,7 +442,7 @@ Theorem suspended_task_frame a o t :
   tk_core (tasks (fst (step a o)) t) = tk_core (tasks a t) /\
   (forall y, s_active (scopes a y) = true -> s_parent (scopes (fst (step a o)) y) = s_parent (scopes a y)) /\
   (forall y, y < nscope a -> s_cancelled (scopes a y) = true -> s_cancelled (scopes (fst (step a o)) y) = true).
-Proof. intros R Hok At Hn. exact (frame_step t a o R Hok At Hn). Qed.
+Proof. intros R Hok At Hn. destruct (frame_step t a o R Hok At Hn) as (F1 & F2 & F3 & _). auto. Qed.
 
 (* the invariant behind (a): a recorded request and a pending wait exclude each other, in every reachable state *)
 Theorem reach_mp ops : ops_ok init ops = true -> MP (final step init ops).
